@@ -99,6 +99,7 @@ Fixpoint hex (s : bytes) : bytes :=
 
 (* ---------- splitting ---------- *)
 
+(* [rev_append cur []] = [rev cur], in linear time and constant stack (case lines can be 10^5 bytes long) *)
 Fixpoint split_on_acc (sep : N) (s : bytes) (cur : bytes) : list bytes :=
   match s with
   | [] => [rev_append cur []]
